@@ -125,9 +125,23 @@ static void c13_fini(void *p)
     free(s);
 }
 
-enum { O_START, O_STOP, O_STATUS0, O_STATUS1, O_BALLOC, O_BFREE0, O_BFREE1, O_BFREE2, O_DISPATCH, O_RESTART, O_FREE, O_N };
+enum { O_START, O_STOP, O_STATUS0, O_STATUS1, O_BALLOC, O_BFREE0, O_BFREE1, O_BFREE2, O_DISPATCH, O_RESTART, O_FREE, O_BALLOC_REFUSED, O_N };
 static const char *on[] = {"start", "stop", "set_status(0)", "set_status(1)", "blocker_alloc", "blocker_free(0)", "blocker_free(1)",
-                           "blocker_free(2)", "dispatch", "restart", "free"};
+                           "blocker_free(2)", "dispatch", "restart", "free", "blocker_alloc(memory-refused)"};
+
+/* environment deviation: upump_common.c is compiled with -Dmalloc=vf_malloc; while vf_refuse is set its memory requests are
+ * refused. A blocker that could not be allocated does not exist: the pump's activity must be what it was. */
+static bool vf_refuse;
+static long vf_refused;
+void *vf_malloc(size_t n);
+void *vf_malloc(size_t n)
+{
+    if (vf_refuse) {
+        vf_refused++;
+        return NULL;
+    }
+    return (malloc)(n);
+}
 static void c13_opstr(int op, char *b, size_t n) { snprintf(b, n, "%s", on[op]); }
 
 static bool backend_active(struct st *s)
@@ -177,6 +191,20 @@ static int c13_apply(void *p, int op, bool check)
         if (s->blk[i] == NULL)
             SEQX_FAIL("blocker_alloc:failed", "upump_blocker_alloc returned NULL");
         s->nblk++;
+        break;
+    }
+    case O_BALLOC_REFUSED: {
+        int i;
+        for (i = 0; i < NBLK; i++)
+            if (s->blk[i] == NULL)
+                break;
+        if (i == NBLK)
+            return SEQX_DISABLED;
+        vf_refuse = true;
+        s->blk[i] = upump_blocker_alloc(s->pump, blocker_cb, s);
+        vf_refuse = false;
+        if (s->blk[i] != NULL)
+            s->nblk++; /* served from the pool: an ordinary allocation */
         break;
     }
     case O_BFREE0:
